@@ -276,7 +276,12 @@ Definition first_claim (sc : script) : N :=
   fold_left (fun m c => match cl_kind c with
                         | KRun | KCancel | KCtx => N.min m (cl_at c)
                         | _ => m
-                        end) (sc_calls sc) (match sc_kind sc with OneOff => sc_due sc | Periodic => if sc_ticks sc =? 0 then 0 else sc_due sc end).
+                        end) (sc_calls sc)
+            (match sc_kind sc with
+             | OneOff => sc_due sc
+             | Periodic => if sc_ticks sc =? 0 then 0
+                           else match sc_behind sc with None => sc_due sc | Some b => sc_due sc - b end   (* the first instance's time *)
+             end).
 
 Definition early_calls_ok (sc : script) (o : outcome) : bool :=
   forallb (fun cs =>
@@ -333,6 +338,22 @@ Fixpoint justified (dur : N) (prev : option N) (sts insts runs : list N) : bool 
                            && justified dur (Some s) sts' insts (snd p)) (pick runs)
   end.
 
+(* the same predicate, written with [if] so that the evaluation (vm_compute is call-by-value: both arguments
+   of [&&] are computed) descends only into the branches whose test succeeded: linear instead of factorial
+   for the long start lists of a job that runs back to back.  [Proofs/C02_Behind.justified_l_eq]: equal to
+   [justified] on every argument. *)
+Fixpoint justified_l (dur : N) (prev : option N) (sts insts runs : list N) : bool :=
+  match sts with
+  | [] => true
+  | s :: sts' =>
+      if existsb (fun p => if fst p =? s then justified_l dur (Some s) sts' (snd p) runs else false) (pick insts)
+      then true
+      else existsb (fun p => if fst p <=? s
+                             then if (fst p =? s) || match prev with Some q => q + dur =? s | None => false end
+                                  then justified_l dur (Some s) sts' insts (snd p) else false
+                             else false) (pick runs)
+  end.
+
 Definition P_oneoff (sc : script) (ob : obs) : bool :=
   let o := ob_out ob in
   let T := sc_due sc in
@@ -347,7 +368,7 @@ Definition P_oneoff (sc : script) (ob : obs) : bool :=
   (len st <=? 1) && (o_overlap o =? len st) && negb (o_panic o)
   && negb (ob_hung ob) && negb (hung_not_foreign (o_calls o) (ob_foreign ob))
   (* it starts at its time or when a run request asks for it, never at another moment *)
-  && justified (sc_dur sc) None st [T] runs_may
+  && justified_l (sc_dur sc) None st [T] runs_may
   (* the job is claimed by at most one external call *)
   && (len runs_ok <=? 1) && (len cancels_ok <=? 1) && (is_empty runs_ok || is_empty cancels_ok)
   (* a run request that reported success means the job runs (then), unless the parent context is
@@ -383,7 +404,7 @@ Definition P_periodic (sc : script) (ob : obs) : bool :=
   && (len st <=? sc_ticks sc) && (len st <=? len (ob_insts ob))
   (* every start is the timer of an instance at that instance's time, or a run request; an instance
      started early by a run request is not started again by its own timer *)
-  && justified (sc_dur sc) None st (ob_insts ob) runs_may
+  && justified_l (sc_dur sc) None st (ob_insts ob) runs_may
   (* keeps ticking: left alone, every instance runs, except that a run request landing on an
      instance's time may replace that instance *)
   && ((undisturbed && (sc_ticks sc * (sc_due sc + sc_dur sc) + sc_dur sc <? sc_end sc)) ==>
@@ -432,15 +453,22 @@ Definition certainly_listed (sc : script) (ob : obs) (i : nat) (tc : N) : bool :
      | Periodic => len (ob_insts ob) <? sc_ticks sc
      end.
 
+Definition effective_cancels_any (sc : script) (ob : obs) : list N :=
+  map (fun x => cl_at (fst (snd x)))
+      (filter (fun x => let '(i, (c, s)) := x in
+                        ckind_eqb (cl_kind c) KCancel
+                        && (ret_nil s || (cst_eqb s Silent && certainly_listed sc ob i (cl_at c))))
+              (indexed 0 (combine (sc_calls sc) (o_calls (ob_out ob))))).
+
+(* A periodic job whose instances can be due the moment they are handed out (period 0, or a fixed-rate
+   schedule: the job may overrun its period, the schedule may start behind) is left out of the clause
+   [cancelled_never_runs]: at every pass through the select the timer and the cancel signal are both ready
+   and either may be taken; what must hold of such a job is [cancel_heeded] below. *)
 Definition effective_cancels (sc : script) (ob : obs) : list N :=
-  match sc_kind sc, sc_due sc with
-  | Periodic, 0 => []
-  | _, _ =>
-      map (fun x => cl_at (fst (snd x)))
-          (filter (fun x => let '(i, (c, s)) := x in
-                            ckind_eqb (cl_kind c) KCancel
-                            && (ret_nil s || (cst_eqb s Silent && certainly_listed sc ob i (cl_at c))))
-                  (indexed 0 (combine (sc_calls sc) (o_calls (ob_out ob)))))
+  match sc_kind sc, sc_due sc, sc_behind sc with
+  | Periodic, 0, _ => []
+  | Periodic, _, Some _ => []
+  | _, _, _ => effective_cancels_any sc ob
   end.
 
 (* the instances whose time lies after such a cancellation start nothing, and no run request issued after
@@ -448,7 +476,7 @@ Definition effective_cancels (sc : script) (ob : obs) : list N :=
 Definition cancelled_never_runs (sc : script) (ob : obs) : bool :=
   ob_hung ob
   || forallb (fun tc =>
-                justified (sc_dur sc) None (o_starts (ob_out ob))
+                justified_l (sc_dur sc) None (o_starts (ob_out ob))
                           (filter (fun L => L <=? tc) (match sc_kind sc with OneOff => [sc_due sc] | Periodic => ob_insts ob end))
                           (filter (fun r => r <=? tc) (times_of sc (ob_out ob) KRun maybe_nil)))
              (effective_cancels sc ob).
@@ -494,6 +522,8 @@ Definition after_exit_ok (sc : script) (ob : obs) : bool :=
 Definition run_success_starts (sc : script) (ob : obs) : bool :=
   let o := ob_out ob in
   ob_hung ob || (sc_due sc =? 0)
+  || match sc_behind sc with Some _ => true | None => false end   (* instances that are due at once can be used up
+                                                                      by the timer branch finding [active] set *)
   || forallb (fun tr =>
                 (forallb (fun tx => tr <? tx) (times_of sc o KCtx (fun _ => true) ++ times_of sc o KCancel maybe_nil)
                  && existsb (fun L => tr + sc_due sc <=? L) (ob_insts ob))
@@ -510,6 +540,33 @@ Definition P_timed (sc : script) (ob : obs) : bool :=
 Definition P_timed_exact (sc : script) (ob : obs) : bool :=
   P_timed sc ob && after_exit_ok sc ob && cancelled_never_runs sc ob && sibs_ok ob
   && match sc_kind sc with OneOff => true | Periodic => run_success_starts sc ob end.
+
+(* --- a cancellation is heeded whatever the schedule ----------------------------------------------
+   "A job cancelled ... never runs": the goroutine of a periodic job looks at its cancel channel, its context
+   and its run channel between any two instances -- also when the next instance is ALREADY DUE the moment
+   runtimeFunc hands it out (a fixed-rate schedule whose job overruns its period, a catch-up after a stall, a
+   runtime function that says "now").  [stops]: the cancellations that certainly took effect (the parent
+   context cancelled; a CancelJob that returned nil; a silent cancellation that returned while the job was
+   certainly listed).  [ignored k]: some such cancellation at [tc] was followed by a start later than
+   tc + k executions of jobFunc: the goroutine went through at least k passes without heeding it.
+   With Go's select a pending cancellation and a timer that is already due are both ready and one is
+   chosen at random, so a single run may legitimately show a few more instances (each with probability 1/2).
+   In a bubble (the harness module's timer channels) the clause is therefore about the REPETITIONS of one
+   script: of twelve or more, not every one shows a cancellation ignored for more than five instances (for
+   the code as modelled the probability of that is below 2^-72; a goroutine that does not look is always
+   condemned).  In real time with the timer channels production has, a timer created for an instant that
+   has passed is not yet ready when the select polls, the pending cancellation wins: there the clause is per
+   repetition, with k = 2 (flake policy as for every real-time case: all serial repetitions must show it). *)
+Definition stops (sc : script) (ob : obs) : list N :=
+  times_of sc (ob_out ob) KCtx (fun _ => true) ++ effective_cancels_any sc ob.
+
+Definition ignored (k : N) (sc : script) (ob : obs) : bool :=
+  existsb (fun tc => existsb (fun s => tc + k * sc_dur sc <? s) (o_starts (ob_out ob))) (stops sc ob).
+
+Definition total_count (os : list obs) : N := fold_right (fun ob n => ob_count ob + n) 0 os.
+
+Definition cancel_heeded (sc : script) (os : list obs) : bool :=
+  (total_count os <? 12) || existsb (fun ob => negb (ignored 5 sc ob)) os.
 
 (* the table of names, as a specification over the set of live names: [live] maps a name to the
    (id, periodic?) of the accepted job that holds it *)
@@ -648,8 +705,8 @@ Definition P_burst (b : burst) (o : bobs) : bool :=
 
 Definition P_b (c : case) : bool :=
   match c_body c with
-  | Timed sc os => forallb (P_timed_exact sc) os
-  | Real sc os => existsb (P_timed sc) os   (* counts when every serial repetition shows it; instants read
+  | Timed sc os => forallb (P_timed_exact sc) os && cancel_heeded sc os
+  | Real sc os => existsb (fun ob => P_timed sc ob && negb (ignored 2 sc ob)) os   (* counts when every serial repetition shows it; instants read
                                                back from real time are not exact: no [after_exit_ok] *)
   | Burst b os => forallb (P_burst b) os
   | Tabled ops outs runs _ => tspec [] 0 [] ops outs runs
